@@ -155,9 +155,28 @@ theorem tell_subs (s : Sys) (sys : Bool) (sender : Option Cid) (t : Target) (m :
   simp only at hr ⊢
   cases m <;> cases c? <;> simp [enqueue, upd, deadLetter, hr]
 
-theorem C19_on_restart (s : Sys) (c : Cid) : (handleRestart s c).subs = s.subs := by
-  by_cases h : (s.ctx c).hooks / 4 % 2 = 1 ∨ (s.ctx c).hooks / 2 % 2 = 1
-  · simp [handleRestart, h, upd, say]
-  · simp [handleRestart, h, upd, say, tell_subs]
+/-- A restart keeps the subscriptions (they are keyed by path, the path survives): the restart
+itself does not touch the table — up to the point where the new incarnation's OnLaunch runs
+(repaired code), which may of course subscribe or unsubscribe like any handler. -/
+theorem C19_on_restart (s : Sys) (c : Cid)
+    (h : ((s.ctx c).hooks / 4 % 2 = 1 ∨ (s.ctx c).hooks / 2 % 2 = 1) ∨ s.fixedLaunch = false) :
+    (handleRestart s c).subs = s.subs := by
+  by_cases hz : (s.ctx c).hooks / 4 % 2 = 1 ∨ (s.ctx c).hooks / 2 % 2 = 1
+  · simp [handleRestart, hz, upd, say]
+  · have hf : s.fixedLaunch = false := by
+      rcases h with h | h
+      · exact absurd h hz
+      · exact h
+    simp [handleRestart, hz, hf, upd, say, tell_subs]
+
+theorem C19_on_restart_relaunch (s : Sys) (c : Cid) (hf : s.fixedLaunch = true)
+    (h : ¬ ((s.ctx c).hooks / 4 % 2 = 1 ∨ (s.ctx c).hooks / 2 % 2 = 1)) :
+    ∃ s3, handleRestart s c = execRecover s3 c (s.ctx c).script { id := 0, sys := true, sender := some c, msg := .onLaunch } .onLaunch ∧
+      s3.subs = s.subs := by
+  refine ⟨say (upd (upd (upd s c (fun x => { x with behaviors := [x.script] })) c
+      (fun x => { x with restarting := none, state := .running, inc := x.inc + 1 })) c
+      (fun x => { x with paused := false })) s!"restarted:{c}", ?_, ?_⟩
+  · simp only [handleRestart, h, if_false, hf, if_true]
+  · simp [upd, say]
 
 end Vivid.ActorSys
